@@ -68,6 +68,9 @@ class RandomShim:
         ctx = self.ctx
         if ctx is None:
             return b
+        force = getattr(ctx, "force_unit", None)
+        if force is not None:
+            return force(b)
         kind, key = self._caller_kind()
         label = "%s:%d" % (key[0].rsplit("/", 1)[-1], key[1])
         if kind == "decision":
